@@ -558,7 +558,8 @@ def _vf(name, family, tier, seed, module="MCGenVec", tpl="Gen_Vec.cfg.tpl"):
 
 def c07(tier, seed, work):
     res = c07_vec(tier, seed, work)
-    return add_walk(res, work, [dict(name="c07-api", module="MCGenApi", cfg_tpl="Gen_Cipher.cfg.tpl", family="api", tier=tier, seed=seed)],
+    return add_walk(res, work, [dict(name="c07-api", module="MCGenApi", cfg_tpl="Gen_Cipher.cfg.tpl", family="api", tier=tier, seed=seed),
+                                dict(name="c07-sdr-malformed", module="MCGenSdr", cfg_tpl="Gen_Cipher.cfg.tpl", family="malformed", tier=tier, seed=seed)],
                     "Composition: every command through SendCommand outside and inside a session (RMCP + wrapper + [AES] + message + body), "
                     "in table order and reversed; the decoded response must agree with the specification's record.")
 
@@ -658,7 +659,8 @@ def c17(tier, seed, work):
                       "Histories: every outcome sequence of Console.tla for two (thorough: three) consecutive calls on one connection / session; "
                       "the result and transmissions of each later call must be those the reference model predicts from that call's own replies.")
     return add_walk(res, work, [dict(name="c17-api", module="MCGenApi", cfg_tpl="Gen_Cipher.cfg.tpl", family="api", tier=tier, seed=seed),
-                                dict(name="c17-cipher", module="MCGenCipher", cfg_tpl="Gen_Cipher.cfg.tpl", family="reuse", tier=tier, seed=seed)],
+                                dict(name="c17-cipher", module="MCGenCipher", cfg_tpl="Gen_Cipher.cfg.tpl", family="reuse", tier=tier, seed=seed),
+                                dict(name="c17-sdr-events", module="MCGenSdr", cfg_tpl="Gen_Cipher.cfg.tpl", family="events17", tier=tier, seed=seed)],
                     "Connection level: every command once on one connection / session in table order and in reverse order; the value decoded "
                     "for each command in the reversed history must still agree with the specification (nothing survives from earlier responses).")
 
